@@ -424,6 +424,7 @@ class ApiCheck(object):
         if extra:
             job.update(extra)
         job['_hs'] = hs
+        job['_wall_cap'] = 90.0          # minimisation / confirmation: a candidate that hangs is simply not kept
         if fresh:
             res = self.pool.fresh_zygote_call(job, self.hashseeds[hs])
         else:
